@@ -130,6 +130,20 @@ def handle (toks : List String) : Option String :=
         if s.any (fun p => !c.contains p) then pure "err not_present" else
         let o := newOrder c s
         pure ("ok " ++ showNats o ++ " " ++ showNats (applyOrder c o))).orElse fun _ => some "err parse"
+    | ["slice", t, st, eps] => (do
+        let tt ← parseRat t; let s0 ← parseTime st
+        let es ← (eps.splitOn ";").mapM fun (x : String) =>
+          match x.splitOn ":" with
+          | [f, a, b, c] => do
+              let fn ← parseFn f; let ss ← parseRat a; let e ← parseRat b; let et ← parseRat c
+              pure ({ fn := fn, ss := ss, es := e, et := et } : InEpoch)
+          | _ => none
+        let showFn : SizeFn → String := fun f => match f with
+          | SizeFn.constant => "constant" | SizeFn.exponential => "exponential" | SizeFn.linear => "linear" | SizeFn.other => "other"
+        let out := shiftEpochs tt s0 es
+        let start := match shiftStart tt s0 with | none => "inf" | some x => showRat x
+        pure ("ok " ++ start ++ " " ++ ";".intercalate (out.map fun (o : OutEpoch) =>
+          showFn o.fn ++ ":" ++ showRat o.ss ++ ":" ++ (match o.es with | none => "none" | some y => showSym y) ++ ":" ++ showRat o.et))).orElse fun _ => some "err parse"
     | ["reordernames", older, no] => (do
         let o ← parseNatList older; let n ← parseNatList no
         if n.any (fun k => k = 0 || k > o.length) || n.length ≠ o.length then pure "err neworder" else
